@@ -16,7 +16,7 @@ BOUNDED = ("Covers exactly the named alphabets and depth bounds (reported in the
            "oracle (self-tested against Python fractions), rustc/LLVM IEEE-754 semantics.")
 
 claim("C01",
-      "Bounded exhaustive exploration of the real Mean/Variance: every add-sequence over thirteen adversarial value alphabets (offsets up to 1e11 spreads, mixed magnitudes 1e±30, tiny and huge scales) up to the depth bound, plus long lasso streams (every short word repeated to 2e4 / 1e5 observations), "
+      "Bounded exhaustive exploration of the real Mean/Variance: every add-sequence over thirteen adversarial value alphabets (offsets up to 1e11 spreads, mixed magnitudes 1e±30, tiny and huge scales) up to the depth bound, plus long lasso streams (every short word repeated to 7e4 / 1e6 observations), "
       "every prefix judged against exact rational statistics of its multiset under the DESIGN.md §4 envelopes (linear in kappa). "
       "A wrong formula or an unstable (kappa^2) formulation leaves the envelope by orders of magnitude on the offset alphabets; "
       "unit tests cannot do this because they have no oracle for arbitrary data.",
@@ -40,7 +40,7 @@ claim("C07",
       "explicit-state BFS (depth 4) over add histories of the real estimator against an exact small-sample reference")
 
 claim("C10",
-      "Bounded exhaustive exploration: every add-sequence over seven alphabets (skew of both signs, offsets) for Variance, Skewness, Kurtosis and define_moments! types of order 4, 6, 10; sample_variance, variance_of_mean, error, sample_skewness and sample_excess_kurtosis at every prefix (below-minimum sizes included) against the textbook formulas on exact rational central moments, under the C03/C04 envelopes; plus lasso streams to 2e4 / 1e5 observations and doubling merges to n = 2^41.",
+      "Bounded exhaustive exploration: every add-sequence over seven alphabets (skew of both signs, offsets) for Variance, Skewness, Kurtosis and define_moments! types of order 4, 6, 10; sample_variance, variance_of_mean, error, sample_skewness and sample_excess_kurtosis at every prefix (below-minimum sizes included) against the textbook formulas on exact rational central moments, under the C03/C04 envelopes; plus lasso streams to 7e4 / 1e6 observations and doubling merges to n = 2^41.",
       BOUNDED,
       "explicit-state BFS over add histories of the real estimators, exact-rational reference oracle on every transition")
 
